@@ -15,7 +15,10 @@ SPEC = dict(
           "exactly one construction, one address (also for a later call), every thread sees a completely constructed "
           "object, constructor arguments are those of the constructing call. mthread: case = 25 ManagedThread "
           "lifetimes (blocking function observed via started/release/finished flags: isActive() sampled 8 times while "
-          "the function provably runs -> true, after join -> false; empty and short functions: false after join). "
+          "the function provably runs -> true, after join -> false; empty and short functions: false after join; "
+          "observed-by-other-thread: the object is constructed in known storage while a second thread, as soon as it has seen "
+          "the function running, queries it - also before the constructor has returned; detached-while-running: the owner "
+          "calls detach() while the function runs, the samples behind it must still say active). "
           "Seeded delays (none/yield/1us/50us/1ms, three perturbation levels) at the CELMA_VERIF_POINTs in "
           "Singleton::instance (before the lock, between construction and publication) and in the ManagedThread "
           "constructor (between thread start and flag initialisation). ThreadSanitizer reports are counted when at "
@@ -40,7 +43,8 @@ SPEC = dict(
              cases={"quick": 864, "thorough": 40500}, chunk={"quick": 54, "thorough": 810},
              repeat=1, parallel={"quick": 8, "thorough": 12}, args={"batch": BATCH},
              require_stats=["mthread_lifetimes_blocking", "mthread_lifetimes_empty", "mthread_lifetimes_short",
-                            "mthread_active_samples"], timeout={"quick": 150, "thorough": 900}),
+                            "mthread_lifetimes_observed-by-other-thread", "mthread_lifetimes_detached-while-running",
+                            "mthread_active_samples", "mthread_samples_after_detach"], timeout={"quick": 150, "thorough": 900}),
         dict(name="singleton-plain", hmode="singleton", flavour="plain", eval_stat="singleton_rounds",
              cases={"quick": 384, "thorough": 16800}, workers={"quick": 4, "thorough": 6}, args={"batch": BATCH},
              timeout={"quick": 150, "thorough": 900}),
